@@ -27,6 +27,7 @@ type evidence struct {
 	Violations                                                                   int
 	KnownFindings                                                                int
 	WallS                                                                        float64
+	Probed                                                                       int
 }
 
 func newEvidence(o *options, p *prepared) *evidence {
@@ -208,6 +209,7 @@ func (e *evidence) write(path string) error {
 		"site_pairs_preempted_x_resumed_lower_bound": e.PairCount,
 		"determinism_self_test":                      det,
 		"known_findings_matched":                     e.KnownFindings,
+		"operations_reevaluated_in_fresh_processes":  e.Probed,
 		"components": map[string]interface{}{
 			"real": []string{"lucene (parse.go, render.go)", "internal/lex", "pkg/lucene/reduce", "pkg/lucene/expr", "pkg/driver",
 				"fmt, strings, strconv, reflect, encoding/json, unicode (real standard library)", "Go runtime, garbage collector, race detector"},
